@@ -129,6 +129,10 @@ func same(r rec, e *appencryption.EnvelopeKeyRecord) string {
 
 var idPool = []string{"_SK_svc_prod", "_IK_part_svc_prod", "_IK_part_svc_prod_us-west-2", "_IK_a'b\"c;--_svc_prod", "_IK_é世界_svc_prod", "_IK_" + strings.Repeat("x", 240), "_IK__", " "}
 
+// parentPool: what a record may name as its parent - system key ids are built from service and product names,
+// which are free-form strings (control characters, DEL, quotes, backslashes, line separators, astral characters)
+var parentPool = append(append([]string{}, idPool...), "_SK_sv\x01c_prod", "_SK_a\tb\x7f_prod", "_SK_\u2028\v_x", "_SK_svc\\_prod\"", "_SK_\U0001F511\a_prod")
+
 func TestModel(t *testing.T) {
 	kit.Check(t, 10000, 480000, func(t *rapid.T) {
 		name := rapid.SampledFrom(backendNames).Draw(t, "backend")
@@ -165,7 +169,7 @@ func TestModel(t *testing.T) {
 					r.created = rapid.SampledFrom(stamps).Draw(t, "recCreated")
 				}
 				if rapid.Bool().Draw(t, "hasParent") {
-					r.parent = &appencryption.KeyMeta{ID: rapid.SampledFrom(idPool).Draw(t, "parentID"), Created: rapid.SampledFrom(stamps).Draw(t, "parentCreated")}
+					r.parent = &appencryption.KeyMeta{ID: rapid.SampledFrom(parentPool).Draw(t, "parentID"), Created: rapid.SampledFrom(stamps).Draw(t, "parentCreated")}
 				}
 				ekr := &appencryption.EnvelopeKeyRecord{ID: id, Created: r.created, EncryptedKey: append([]byte(nil), r.key...), Revoked: r.revoked}
 				if r.parent != nil {
